@@ -399,6 +399,9 @@ def oracle(line, out, meta):
                 return "agent %d: the bytes written to the TCP socket are not the frames handed to the socket layer (first difference at byte %d)" % (
                     a, next((k for k in range(min(len(exp), len(wire[a]))) if exp[k] != wire[a][k]), min(len(exp), len(wire[a])))), None, None
             return "agent %d: %d bytes of accepted frames never reached the TCP socket although the socket became writable" % (a, len(exp) - len(wire[a])), None, None
+    info["accepted"] = accepted
+    info["deliv"] = deliv
+    info["overread"] = overread
     # ---- receiver side
     for b in (0, 1):
         a = 1 - b
@@ -422,7 +425,7 @@ def oracle(line, out, meta):
                 # does the rest match once the leaked control frames are removed?
                 rest = [x[1] for x in deliv[b] if not (x[0] == "g" and not x[2] and x[1] in ice)]
                 if rest == exp_data:
-                    return D2_WHY + ": %d-byte STUN message %s..." % (len(got[k]), got[k][:8].hex()), "ice-control-leak-recv-messages-cache", None
+                    return D2_WHY + ": %d-byte STUN message %s..." % (len(got[k]), got[k][:8].hex()), "ice-control-leak-recv-messages-cache", info
             if k < len(got) and got[k] in ice:
                 return "agent %d: an ICE control (STUN) frame of %d bytes was handed to the application" % (b, len(got[k])), None, None
             if k >= len(got):
@@ -431,9 +434,6 @@ def oracle(line, out, meta):
                 return "agent %d: received a %d-byte message the peer never sent" % (b, len(got[k])), None, None
             return "agent %d: delivery %d has %d bytes (hash %08x), the peer's frame %d has %d bytes (hash %08x): altered, merged or split" % (
                 b, k, len(got[k]), hash32(got[k]), k, len(exp_data[k]), hash32(exp_data[k])), None, None
-    info["accepted"] = accepted
-    info["deliv"] = deliv
-    info["overread"] = overread
     return None, None, info
 
 
@@ -488,6 +488,22 @@ Definition cb_ok (c : bool * bool * list Z * list Z * list (list Z) * list (Z * 
   | Some (_, _, ds, false) => leqb dl_eqb (summ ds) exp
   | _ => false
   end.
+Definition mk_msg (sizes : list Z) : imsg := {| m_bufs := map (fun n => repZ 0 (Z.to_nat n)) sizes; m_len := 0 |}.
+Fixpoint rm_run (ice : list (list Z)) (s : rst) (pd : list Z) (calls : list (list (list Z) * list Z)) : option (list (Z * list (Z * Z))) :=
+  match calls with
+  | [] => Some []
+  | (lays, scr) :: rest =>
+    match recv_messages_call false (isctl ice) true s {| pend := pd; script := map kev_of scr |} (map mk_msg lays) with
+    | None => None
+    | Some (s', k', msgs', r) =>
+      let vals := map (fun m => (m_len m, h32 (valid_bytes m))) (firstn (Z.to_nat r) msgs') in
+      match rm_run ice s' (pend k') rest with None => None | Some l => Some ((r, vals) :: l) end
+    end
+  end.
+Definition rv_eqb (a b : Z * list (Z * Z)) := (fst a =? fst b) && leqb dl_eqb (snd a) (snd b).
+Definition rm_ok (c : list Z * list (list Z) * list (list (list Z) * list Z) * list (Z * list (Z * Z))) : bool :=
+  let '(stream, ice, calls, exp) := c in
+  match rm_run ice rst0 stream calls with Some l => leqb rv_eqb l exp | None => false end.
 """
 
 
@@ -534,10 +550,24 @@ def session_item(meta, info, b):
     cfg = meta["cfg"]
     if meta["use_g"] or any(m.get("foreign") for m in meta["ops"]):
         return None
-    # the stream: accepted frames of a
+    stream, ice = stream_expr(meta, info, a)
+    scr = []
+    for r in info["reads"][b]:
+        if r[0] == "q":
+            if r[2] <= 0:
+                return None
+            scr.append(r[2])
+        elif r[0] == "e":
+            scr.append(0)
+    if len(scr) > 400:
+        return None
+    exp = coq_list(["(%d, %d)" % (len(x[1]), hash32(x[1])) for x in info["deliv"][b]])
+    return "(%s, %s, %s, %s, %s, %s)" % ("true" if cfg["b"] else "false", "true" if cfg["r"] else "false", stream, coq_zl(scr), coq_list(ice), exp)
+
+
+def stream_expr(meta, info, a):
+    """the byte stream agent a put on the wire, as a Coq term, and the ICE control payloads in it"""
     segs, ice = [], []
-    sent_iter = iter([s for s in info["sends"] if s["a"] == a])
-    # rebuild from info["accepted"] using message descriptors for the data frames
     dataframes = []
     for s in info["sends"]:
         if s["a"] != a:
@@ -556,7 +586,21 @@ def session_item(meta, info, b):
         else:
             segs.append(coq_zl(byts))
             ice.append(coq_zl(byts[2:]))
-    scr = []
+    return (" ++ ".join("(%s)" % x for x in segs) if segs else "[]"), ice
+
+
+def lay_sizes(lay):
+    lay = lay[:-1] if lay.endswith("N") else lay
+    return [int(x) for x in lay.split(".")]
+
+
+def rm_item(meta, info, b):
+    """the nice_agent_recv_messages calls of agent b (non-reliable agents) as a Coq term"""
+    cfg = meta["cfg"]
+    if not meta["use_g"] or cfg["r"] or cfg["b"] or any(m.get("foreign") for m in meta["ops"]):
+        return None
+    stream, ice = stream_expr(meta, info, 1 - b)
+    calls, exp, scr = [], [], []
     for r in info["reads"][b]:
         if r[0] == "q":
             if r[2] <= 0:
@@ -564,41 +608,52 @@ def session_item(meta, info, b):
             scr.append(r[2])
         elif r[0] == "e":
             scr.append(0)
-    if len(scr) > 400:
+        elif r[0] == "d":
+            return None
+        elif r[0] == "g":
+            _, lay, nm, ret, vals = r
+            calls.append("(%s, %s)" % (coq_list([coq_zl(lay_sizes(lay))] * nm), coq_zl(scr)))
+            exp.append("(%d, %s)" % (ret, coq_list(["(%d, %d)" % (len(v), hash32(v)) for v in vals])))
+            scr = []
+    if not calls or len(calls) > 60:
         return None
-    exp = coq_list(["(%d, %d)" % (len(x[1]), hash32(x[1])) for x in info["deliv"][b]])
-    stream = " ++ ".join("(%s)" % s for s in segs) if segs else "[]"
-    return "(%s, %s, %s, %s, %s, %s)" % ("true" if cfg["b"] else "false", "true" if cfg["r"] else "false", stream, coq_zl(scr), coq_list(ice), exp)
+    return "(%s, %s, %s, %s)" % (stream, coq_list(ice), coq_list(calls), coq_list(exp))
 
 
-def run_tie(chk, send_items, cb_items, label):
+def run_tie(chk, send_items, cb_items, label, rm_items=()):
     import concurrent.futures as cf
     jobs = []
     nchunk = 12
+    rm_items = list(rm_items)
     for k in range(nchunk):
         si = send_items[k::nchunk]
         ci = cb_items[k::nchunk]
-        if not si and not ci:
+        ri = rm_items[k::nchunk]
+        if not si and not ci and not ri:
             continue
         body = PREAMBLE + ("Definition scases : list (list (list (list Z)) * list Z * option (list (bool * Z * list Z) * Z * Z)) := %s.\n"
                            "Definition ccases : list (bool * bool * list Z * list Z * list (list Z) * list (Z * Z)) := %s.\n") % (
             "[\n" + ";\n".join(si) + "]" if si else "[]", "[\n" + ";\n".join(ci) + "]" if ci else "[]")
+        body += "Definition rcases : list (list Z * list (list Z) * list (list (list Z) * list Z) * list (Z * list (Z * Z))) := %s.\n" % (
+            "[\n" + ";\n".join(ri) + "]" if ri else "[]")
         body += ("Definition sbad := filter (fun c => negb (send_ok c)) scases.\n"
                  "Definition cbad := filter (fun c => negb (cb_ok c)) ccases.\n"
+                 "Definition rbad := filter (fun c => negb (rm_ok c)) rcases.\n"
+                 "Eval vm_compute in (length rbad, match rbad with c :: _ => Some (let '(stream, ice, calls, exp) := c in (map snd calls, exp, rm_run ice rst0 stream calls)) | [] => None end).\n"
                  "Eval vm_compute in (length sbad, length cbad, match sbad with c :: _ => Some (snd (fst c), send_obs (fst (fst c)) (snd (fst c)), snd c) | [] => None end,\n"
                  "   match cbad with c :: _ => Some (let '(bsm, rel, stream, scr, ice, exp) := c in (scr, exp, match (if rel then rel_session bsm (isctl ice) true (S (length scr)) rst0 {| pend := stream; script := map kev_of scr |} else cb_session bsm (isctl ice) true (S (length scr)) rst0 {| pend := stream; script := map kev_of scr |}) with Some (_, _, ds, e) => Some (summ ds, e) | None => None end)) | [] => None end).\n")
-        jobs.append((body, len(si), len(ci)))
+        jobs.append((body, len(si), len(ci) + len(ri)))
     ok_s = ok_c = 0
     with cf.ThreadPoolExecutor(len(jobs) or 1) as ex:
         for (body, ns, nc), (rc, out) in zip(jobs, ex.map(lambda j: vlib.coq_eval(TIE_MODS, j[0], timeout=900), jobs)):
             flat = out.replace("\n", " ")
             flat = re.sub(r"\s+", " ", flat)
-            if rc == 0 and "= (0%nat, 0%nat, None, None)" in flat:
+            if rc == 0 and "= (0%nat, 0%nat, None, None)" in flat and "= (0%nat, None)" in flat:
                 ok_s += ns; ok_c += nc
             else:
                 chk.broken_obligation("correspondence:" + label, "FramingModel / RecvModel and agent/agent.c disagree (or the evaluation failed):\n" + out[-2500:])
     chk.cov["traces_validated_against_impl"] += ok_s + ok_c
-    chk.cov["correspondence"][label] = {"send_ops": len(send_items), "receive_sessions": len(cb_items), "agree": ok_s + ok_c}
+    chk.cov["correspondence"][label] = {"send_ops": len(send_items), "callback_sessions": len(cb_items), "recv_messages_sessions": len(rm_items), "agree": ok_s + ok_c}
 
 
 # ------------------------------------------------------------------ builds
@@ -653,7 +708,7 @@ def tcp_part(chk):
         if nviol <= 3:
             chk.violation({"kind": "impl-crash", "what": "tcp-C02", "case": cases[idx][0], "rc": rc, "stderr": se[-3000:]},
                           "tcp-C02: implementation crashed or sanitizer report (rc=%s) on case: %s\n%s" % (rc, cases[idx][0][:300], se[-1500:]))
-    send_items, cb_items = [], []
+    send_items, cb_items, rm_items = [], [], []
     ntie_cases = 0
     tie_budget = 60 if chk.tier == "quick" else 1500
     for k, (line, kind, meta) in enumerate(cases):
@@ -677,6 +732,12 @@ def tcp_part(chk):
                 if sm and len(sm[0]["msgs"]) == 1 and ntie_cases < tie_budget + 30:
                     m = sm[0]["msgs"][0]
                     send_items.append("([cut %s (%s)], [], None)" % (coq_zl(m.sizes), coq_bytes_expr(m)))
+            # the leak of a cached control frame is what the model predicts: tie it
+            if trigger == "ice-control-leak-recv-messages-cache" and info is not None:
+                for b in (0, 1):
+                    it = rm_item(meta, info, b)
+                    if it:
+                        rm_items.append(it)
             continue
         if info is None:
             continue
@@ -691,7 +752,10 @@ def tcp_part(chk):
             it = session_item(meta, info, b)
             if it and (info["deliv"][b] or info["reads"][b]):
                 cb_items.append(it)
-    run_tie(chk, send_items, cb_items, "tcp-C02")
+            it = rm_item(meta, info, b)
+            if it:
+                rm_items.append(it)
+    run_tie(chk, send_items, cb_items, "tcp-C02", rm_items)
 
 
 def align_probe(chk):
@@ -712,6 +776,22 @@ def align_probe(chk):
                           "tcp-C02 (alignment build): crash or sanitizer report rc=%s\n%s" % (rc, se[-1500:]))
 
 
+def spin_probe(chk):
+    """bytestream-tcp: nice_agent_recv_messages with a message of zero total capacity while a frame is pending"""
+    impl, o = build_impl(False)
+    if not impl:
+        return
+    line = "z0 r1b1k0s3 C1;0 S0;5;g1 P G1;0.0 P\n"
+    rc, so, se = vlib.run_lines(impl, line, timeout=4)
+    chk.count_case(line, True, "tcp-zero-capacity-probe")
+    if rc == 124:
+        chk.violation({"kind": "hang", "what": "tcp-C02", "trigger": "bytestream-zero-capacity-spin", "case": line.strip()},
+                      "tcp-C02: nice_agent_recv_messages_nonblocking does not return (4 s): bytestream-tcp, receive buffers of zero total size, a frame pending")
+    elif rc != 0:
+        chk.violation({"kind": "impl-crash", "what": "tcp-C02-spin", "case": line.strip(), "rc": rc, "stderr": se[-3000:]},
+                      "tcp-C02 (zero-capacity probe): crash or sanitizer report rc=%s\n%s" % (rc, se[-1500:]))
+
+
 def sim_oracle(line, evs, meta):
     return sc.oracle_data_full(evs, meta)
 
@@ -720,6 +800,7 @@ def run(chk):
     chk.prove(["Props/Properties_C02.v"])
     tcp_part(chk)
     align_probe(chk)
+    spin_probe(chk)
     n = 200 if chk.tier == "quick" else 12000
     cases = [sc.gen_data(chk.rng, i) for i in range(n)]
     sc.run_sim(chk, cases, sim_oracle, "sim-C02", compare=False)
